@@ -26,6 +26,9 @@ impl<'l, Data> EventLoop<'l, Data> {
 //@ rw R10 1 <<&self.handle.inner.sources.borrow()>> => <<sources_cell>>
 //@ rw R10 1 <<self.handle.inner.poll.borrow()>> => <<poll_cell>>
 //@ bind WAIT <<poll.poll(>>
+//@ rw R19 1 <<poll.poll(>> => <<poll.poll_attempt(Ghost(attempt), >>
+//@ after <<let result = poll.poll(>>
+                proof { attempt = attempt + 1; }
 //@ sig
 /// S1 slice of EventLoop::dispatch_events: everything from the first statement up to and including the wait
 /// (`let events = { .. poll.poll(timeout) .. };`): the before_sleep loop, the forced zero timeout, the EINTR retry loop.
@@ -59,6 +62,7 @@ fn before_sleep_and_wait(&mut self, extra_cell: &AdditionalLifecycleEventsSet, s
         },
 //@ entry
     let ghost timeout0 = timeout;
+    let ghost mut attempt: nat = 0;
     proof { broadcast use crate::ext_dur::axiom_duration_cmp; }
 //@ loop 1
         invariant
@@ -82,6 +86,9 @@ fn before_sleep_and_wait(&mut self, extra_cell: &AdditionalLifecycleEventsSet, s
             self.synthetic_events@ == synth1,
             // either no wait has happened yet and the timeout is still the one computed above, or the first wait used it
             $WAIT == timeout1 || poll_cell.w_polled(timeout1),
+            // C12/C11: the wait is repeated ONLY after an attempt that was interrupted by a signal; any other error ends the
+            // dispatch (it is returned, not retried)
+            attempt > 0 ==> poll_cell.w_interrupted((attempt - 1) as nat),
 //@ before <<let events = {>>
         let ghost synth1 = self.synthetic_events@;
         let ghost timeout1 = $WAIT;
